@@ -2,11 +2,42 @@
 C08: the simulation relation between the model over the ideal backend and the specification, one
 step and whole runs.
 -/
-import Gossamer.Lib.C08Sim
+import Gossamer.Lib.C08Writes3
 set_option linter.unusedSectionVars false
 set_option linter.unusedSimpArgs false
 namespace Gossamer.C08
 open Gossamer
+
+/-- Operations of the proved fragment; `CK` = the strings used as child-trie keys.
+    Excluded regions (= known findings): a string used both as main key and as child-trie key
+    (`deletes-shared-by-main-and-child`), main keys / prefixes at or below `:child_storage:default:`
+    (`child-root-key-unprotected`), `croot` (`child-root-ignores-overlay`), the limit variants. -/
+def OpOK (CK : Bytes → Bool) : Op → Prop
+  | .put k _ => Logical.isChildKey k = false ∧ CK k = false
+  | .del k => Logical.isChildKey k = false ∧ CK k = false
+  | .get k => Logical.isChildKey k = false ∧ CK k = false
+  | .next _ => True
+  | .ents => True
+  | .clr p => overlapsRegion p = false
+  | .cput c _ _ => CK c = true
+  | .cdel c _ => CK c = true
+  | .cget c _ => CK c = true
+  | .cclr c _ => CK c = true
+  | .cnext c _ => CK c = true
+  | .ckeys c _ => CK c = true
+  | .kill c => CK c = true ∧ Logical.isChildKey c = false
+  | .start => True
+  | .commit => True
+  | .rollback => True
+  | _ => False
+
+/-- `OpOK` and, for a child write, the child trie was not deleted earlier in the same transaction
+    (finding `child-recreated-after-kill`; the driver's test: the key is in `deletes` of the top diff) -/
+def StepOK (CK : Bytes → Bool) (t : TS Logical) (op : Op) : Prop :=
+  OpOK CK op ∧
+    (match op, t.txs with
+      | .cput c _ _, d :: _ => c ∉ d.c.deletes
+      | _, _ => True)
 
 /-- the specification state is the logical content of every level of the model state -/
 structure Sim (CK : Bytes → Bool) (t : TS Logical) (s : SS) : Prop where
@@ -69,6 +100,29 @@ theorem clearKid_eq_setKid (hw : b.WF) (ck k : Bytes) :
   · intro k'; rw [main_clearKid, main_setKid]
   · intro ck' k'; rw [kidOf_clearKid, kidOf_setKid]
 
+theorem baseInv_clr (hb : BaseInv CK b) (p : Bytes) :
+    BaseInv CK { b with main := OMap.clearPrefix p b.main } := by
+  refine ⟨⟨OMap.sorted_clearPrefix _ hb.wf.main, ?_, hb.wf.kids, hb.wf.kid⟩, ?_, hb.kidsCK⟩
+  · intro k' hk'
+    rw [OMap.get_clearPrefix]
+    simp [hb.wf.noChild k' hk']
+  · intro k' hk'
+    simp only [OMap.get_clearPrefix]
+    simp [hb.mainCK k' hk']
+
+theorem setKid_clear_missing (hw : b.WF) (ck p : Bytes) (h : KMap.find ck b.kids = none) :
+    Logical.setKid b ck (OMap.clearPrefix p (kidOf b ck)) = b := by
+  have e : OMap.clearPrefix p (kidOf b ck) = [] := by rw [kidOf_none h]; rfl
+  rw [e]
+  have hnil : OMap.Sorted ([] : Entries) := trivial
+  apply Logical.ext (wf_setKid hw _ _ hnil) hw
+  · intro k; rw [main_setKid]
+  · intro ck' k
+    rw [kidOf_setKid]
+    by_cases hc : ck' = ck
+    · subst hc; simp [kidOf_none h]
+    · simp [hc]
+
 end base
 
 section step
@@ -79,45 +133,96 @@ theorem mainView_get (s : SS) (k : Bytes) (hk : Logical.isChildKey k = false) :
   unfold SS.mainView
   rw [view_get Hc _ k hk]
 
+/-- reads of a child on the committed state (no transaction open) -/
+theorem cnext0 (b : Logical) (ck k : Bytes) :
+    getChildNextKeyTS (idealBackend Hc Hm) { base := b, txs := [] } ck k =
+      .val (OMap.nextKey k (kidOf b ck)) := by
+  simp only [getChildNextKeyTS]
+  rw [getChild_ideal]
+  cases hfb : KMap.find ck b.kids with
+  | none => simp [kidOf_none hfb, OMap.nextKey]
+  | some es => simp [kidOf_some hfb, idealBackend, omapOps]
+
+theorem ckeys0 (b : Logical) (hw : b.WF) (ck p : Bytes) :
+    getKeysWithPrefixFromChildTS (idealBackend Hc Hm) { base := b, txs := [] } ck p =
+      .keys (OMap.keysWithPrefix p (kidOf b ck)) := by
+  simp only [getKeysWithPrefixFromChildTS]
+  rw [getChild_ideal]
+  cases hfb : KMap.find ck b.kids with
+  | none => simp [kidOf_none hfb, OMap.keysWithPrefix]
+  | some es =>
+    have hs : OMap.Sorted es := (hw.kid ck es hfb).1
+    simp only [kidOf_some hfb, idealBackend, omapOps]
+    rw [sortKeys_sorted (keysWithPrefix_sorted hs p)]
+
+theorem cclr0 (b : Logical) (hw : b.WF) (ck p : Bytes) :
+    (clearPrefixInChildTS (idealBackend Hc Hm) { base := b, txs := [] } ck p).1 =
+      { base := Logical.setKid b ck (OMap.clearPrefix p (kidOf b ck)), txs := [] } ∧
+    (clearPrefixInChildTS (idealBackend Hc Hm) { base := b, txs := [] } ck p).2 = .ok := by
+  simp only [clearPrefixInChildTS]
+  rw [getChild_ideal]
+  cases hfb : KMap.find ck b.kids with
+  | none =>
+    simp only []
+    rw [setKid_clear_missing hw ck p hfb]
+    exact ⟨by first | trivial | rfl, by first | trivial | rfl⟩
+  | some es =>
+    simp only [kidOf_some hfb]
+    exact ⟨by first | trivial | rfl, by first | trivial | rfl⟩
+
 /-- one operation of the fragment keeps the relation and gives the same observable -/
-theorem sim_step {t : TS Logical} {s : SS} (h : Sim CK t s) (op : Op) (hop : OpOK CK op) :
+theorem sim_step {t : TS Logical} {s : SS} (h : Sim CK t s) (op : Op) (hstep : StepOK CK t op) :
     Sim CK (stepTS (idealBackend Hc Hm) D Diff.sortedOrder t op).1 (specStep Hc Hm s op).1 ∧
       (stepTS (idealBackend Hc Hm) D Diff.sortedOrder t op).2 = (specStep Hc Hm s op).2 := by
   obtain ⟨b, txs⟩ := t
   obtain ⟨sb, ss⟩ := s
   obtain ⟨hback, hstack, hbase, hdiffs⟩ := h
-  simp only at hback hstack hbase hdiffs
+  obtain ⟨hop, hkill⟩ := hstep
+  simp only at hback hstack hbase hdiffs hkill
   subst hback
   cases txs with
   | nil =>
     simp only [List.map_nil] at hstack
     subst hstack
+    have hnil : ∀ d ∈ ([] : List Diff), DiffInv CK d := fun _ h => by simp at h
     cases op <;> simp only [OpOK] at hop <;> try (exact absurd hop id)
     · -- put
       rename_i k v
       simp only [stepTS, putTS, specStep, hop.1, Bool.false_eq_true, if_false, idealBackend,
         SS.setTop, SS.top, List.head?_nil, Option.getD_none]
-      exact ⟨⟨rfl, rfl, baseInv_put hbase k _ hop, fun _ h => by simp at h⟩, by first | trivial | rfl⟩
+      exact ⟨⟨rfl, rfl, baseInv_put hbase k _ hop, hnil⟩, by first | trivial | rfl⟩
     · -- get
       rename_i k
       simp only [stepTS, readOp, getTS, specStep, specRead, idealBackend]
-      refine ⟨⟨rfl, rfl, hbase, fun _ h => by simp at h⟩, ?_⟩
+      refine ⟨⟨rfl, rfl, hbase, hnil⟩, ?_⟩
       rw [view_get Hc _ k hop.1, mainView_get Hc _ k hop.1]
       rfl
     · -- del
       rename_i k
       simp only [stepTS, deleteTS, specStep, hop.1, Bool.false_eq_true, if_false, idealBackend,
         SS.setTop, SS.top, List.head?_nil, Option.getD_none]
-      exact ⟨⟨rfl, rfl, baseInv_del hbase k, fun _ h => by simp at h⟩, by first | trivial | rfl⟩
+      exact ⟨⟨rfl, rfl, baseInv_del hbase k, hnil⟩, by first | trivial | rfl⟩
+    · -- clr
+      rename_i p
+      simp only [stepTS, clearPrefixTS, specStep, idealBackend, SS.setTop, SS.top,
+        List.head?_nil, Option.getD_none]
+      exact ⟨⟨rfl, rfl, baseInv_clr hbase p, hnil⟩, by first | trivial | rfl⟩
+    · -- next
+      rename_i k
+      simp only [stepTS, readOp, nextKeyTS, specStep, specRead, idealBackend]
+      exact ⟨⟨rfl, rfl, hbase, hnil⟩, rfl⟩
+    · -- ents
+      simp only [stepTS, readOp, trieEntriesTS, specStep, specRead, idealBackend]
+      exact ⟨⟨rfl, rfl, hbase, hnil⟩, rfl⟩
     · -- cput
       rename_i c k v
       simp only [stepTS, setChildStorageTS, specStep, idealBackend, SS.setTop, SS.top,
         List.head?_nil, Option.getD_none]
-      exact ⟨⟨rfl, rfl, baseInv_putIntoChild hbase c k v hop, fun _ h => by simp at h⟩, by first | trivial | rfl⟩
+      exact ⟨⟨rfl, rfl, baseInv_putIntoChild hbase c k v hop, hnil⟩, by first | trivial | rfl⟩
     · -- cget
       rename_i c k
       simp only [stepTS, readOp, getChildStorageTS, specStep, specRead, getFromChildB_ideal]
-      exact ⟨⟨rfl, rfl, hbase, fun _ h => by simp at h⟩, by first | trivial | rfl⟩
+      exact ⟨⟨rfl, rfl, hbase, hnil⟩, by first | trivial | rfl⟩
     · -- cdel
       rename_i c k
       simp only [stepTS, clearChildStorageTS, specStep, idealBackend, SS.setTop, SS.top,
@@ -126,7 +231,27 @@ theorem sim_step {t : TS Logical} {s : SS} (h : Sim CK t s) (op : Op) (hop : OpO
           Logical.setKid sb c (OMap.erase k (kidOf sb c)) := clearKid_eq_setKid hbase.wf c k
       rw [e]
       exact ⟨⟨rfl, rfl, baseInv_setKid hbase c _
-        (OMap.sorted_erase _ (kidOf_sorted hbase.wf c)) hop, fun _ h => by simp at h⟩, by first | trivial | rfl⟩
+        (OMap.sorted_erase _ (kidOf_sorted hbase.wf c)) hop, hnil⟩, by first | trivial | rfl⟩
+    · -- cclr
+      rename_i c p
+      obtain ⟨e1, e2⟩ := cclr0 Hc Hm sb hbase.wf c p
+      simp only [stepTS, specStep, SS.setTop, SS.top, List.head?_nil, Option.getD_none]
+      rw [e1, e2]
+      exact ⟨⟨rfl, rfl, baseInv_setKid hbase c _
+        (OMap.sorted_clearPrefix _ (kidOf_sorted hbase.wf c)) hop, hnil⟩, rfl⟩
+    · -- cnext
+      rename_i c k
+      simp only [stepTS, readOp, specStep, specRead, cnext0]
+      exact ⟨⟨rfl, rfl, hbase, hnil⟩, by first | trivial | rfl⟩
+    · -- ckeys
+      rename_i c p
+      simp only [stepTS, readOp, specStep, specRead, ckeys0 Hc Hm sb hbase.wf]
+      exact ⟨⟨rfl, rfl, hbase, hnil⟩, by first | trivial | rfl⟩
+    · -- kill
+      rename_i c
+      simp only [stepTS, deleteChildTS, specStep, idealBackend, SS.setTop, SS.top,
+        List.head?_nil, Option.getD_none]
+      exact ⟨⟨rfl, rfl, baseInv_delKid hbase c, hnil⟩, by first | trivial | rfl⟩
     · -- start
       simp only [stepTS, startTS, specStep, List.head?_nil, Option.getD_none, SS.top]
       refine ⟨⟨rfl, rfl, hbase, ?_⟩, by first | trivial | rfl⟩
@@ -136,10 +261,10 @@ theorem sim_step {t : TS Logical} {s : SS} (h : Sim CK t s) (op : Op) (hop : OpO
       exact DiffInv.empty CK
     · -- commit
       simp only [stepTS, commitTS, specStep]
-      exact ⟨⟨rfl, rfl, hbase, fun _ h => by simp at h⟩, by first | trivial | rfl⟩
+      exact ⟨⟨rfl, rfl, hbase, hnil⟩, by first | trivial | rfl⟩
     · -- rollback
       simp only [stepTS, rollbackTS, specStep]
-      exact ⟨⟨rfl, rfl, hbase, fun _ h => by simp at h⟩, by first | trivial | rfl⟩
+      exact ⟨⟨rfl, rfl, hbase, hnil⟩, by first | trivial | rfl⟩
   | cons d r =>
     simp only [List.map_cons] at hstack
     subst hstack
@@ -171,19 +296,38 @@ theorem sim_step {t : TS Logical} {s : SS} (h : Sim CK t s) (op : Op) (hop : OpO
       refine ⟨⟨rfl, ?_, hbase, hcons _ (inv_delete hd k hop)⟩, by first | trivial | rfl⟩
       simp only [List.map_cons]
       rw [eff_delete hbase hd k hop]
+    · -- clr
+      rename_i p
+      obtain ⟨e1, e2⟩ := eff_clearPrefix Hc Hm hbase hd p hop
+      simp only [stepTS, clearPrefixTS, specStep, SS.setTop, SS.top, List.head?_cons,
+        Option.getD_some]
+      refine ⟨⟨rfl, ?_, hbase, hcons _ e2⟩, by first | trivial | rfl⟩
+      simp only [List.map_cons]
+      rw [e1]
+    · -- next
+      rename_i k
+      simp only [stepTS, readOp, specStep, specRead]
+      refine ⟨⟨rfl, rfl, hbase, hdiffs⟩, ?_⟩
+      rw [next_sim Hc Hm hbase hd r k]
+      rfl
+    · -- ents
+      simp only [stepTS, readOp, specStep, specRead]
+      refine ⟨⟨rfl, rfl, hbase, hdiffs⟩, ?_⟩
+      rw [ents_sim Hc Hm hbase hd r]
+      rfl
     · -- cput
       rename_i c k v
       simp only [stepTS, setChildStorageTS, specStep, SS.setTop, SS.top, List.head?_cons,
         Option.getD_some]
       refine ⟨⟨rfl, ?_, hbase, hcons _ (inv_upsertChild hd c k _ hop)⟩, by first | trivial | rfl⟩
       simp only [List.map_cons]
-      rw [eff_upsertChild hbase hd c k _ hop]
+      rw [eff_upsertChild hbase hd c k _ hop hkill]
       rfl
     · -- cget
       rename_i c k
       simp only [stepTS, readOp, specStep, specRead]
       refine ⟨⟨rfl, rfl, hbase, hdiffs⟩, ?_⟩
-      rw [cget_sim Hc Hm hbase hd r c k hop]
+      rw [cget_sim Hc Hm hbase hd r c k]
       rfl
     · -- cdel
       rename_i c k
@@ -192,6 +336,33 @@ theorem sim_step {t : TS Logical} {s : SS} (h : Sim CK t s) (op : Op) (hop : OpO
       refine ⟨⟨rfl, ?_, hbase, hcons _ (inv_deleteFromChild hd c k hop)⟩, by first | trivial | rfl⟩
       simp only [List.map_cons]
       rw [eff_deleteFromChild hbase hd c k hop]
+    · -- cclr
+      rename_i c p
+      obtain ⟨e1, e2⟩ := eff_clearChild hbase hd c p hop
+      simp only [stepTS, specStep, SS.setTop, SS.top, List.head?_cons, Option.getD_some]
+      rw [clearPrefixInChildTS_tx Hc Hm d r c p]
+      refine ⟨⟨rfl, ?_, hbase, hcons _ e2⟩, rfl⟩
+      simp only [List.map_cons]
+      rw [e1]
+    · -- cnext
+      rename_i c k
+      simp only [stepTS, readOp, specStep, specRead]
+      refine ⟨⟨rfl, rfl, hbase, hdiffs⟩, ?_⟩
+      rw [cnext_sim Hc Hm hbase hd r c k]
+      rfl
+    · -- ckeys
+      rename_i c p
+      simp only [stepTS, readOp, specStep, specRead]
+      refine ⟨⟨rfl, rfl, hbase, hdiffs⟩, ?_⟩
+      rw [ckeys_sim Hc Hm hbase hd r c p]
+      rfl
+    · -- kill
+      rename_i c
+      simp only [stepTS, deleteChildTS, specStep, SS.setTop, SS.top, List.head?_cons,
+        Option.getD_some]
+      refine ⟨⟨rfl, ?_, hbase, hcons _ (inv_kill hd c hop.1 hop.2)⟩, by first | trivial | rfl⟩
+      simp only [List.map_cons]
+      rw [eff_kill hbase hd c hop.1 hop.2]
     · -- start
       simp only [stepTS, startTS, specStep, List.head?_cons, Option.getD_some, SS.top]
       refine ⟨⟨rfl, rfl, hbase, ?_⟩, by first | trivial | rfl⟩
@@ -215,16 +386,22 @@ theorem sim_step {t : TS Logical} {s : SS} (h : Sim CK t s) (op : Op) (hop : OpO
       simp only [stepTS, rollbackTS, specStep]
       exact ⟨⟨rfl, rfl, hbase, hr⟩, by first | trivial | rfl⟩
 
+/-- every step of the run is in the fragment (`StepOK` at the state the model has reached) -/
+def SafeRun (CK : Bytes → Bool) : TS Logical → List Op → Prop
+  | _, [] => True
+  | t, op :: r =>
+    StepOK CK t op ∧ SafeRun CK (stepTS (idealBackend Hc Hm) D Diff.sortedOrder t op).1 r
+
 /-- whole runs: same observables, and the relation holds at the end -/
 theorem sim_run {t : TS Logical} {s : SS} (h : Sim CK t s) (ops : List Op)
-    (hops : ∀ op ∈ ops, OpOK CK op) :
+    (hops : SafeRun Hc Hm D CK t ops) :
     Sim CK (runTS (idealBackend Hc Hm) D Diff.sortedOrder t ops).1 (specRun Hc Hm s ops).1 ∧
       (runTS (idealBackend Hc Hm) D Diff.sortedOrder t ops).2 = (specRun Hc Hm s ops).2 := by
   induction ops generalizing t s with
   | nil => exact ⟨h, rfl⟩
   | cons op r ih =>
-    obtain ⟨h1, h2⟩ := sim_step Hc Hm D h op (hops op (by simp))
-    obtain ⟨h3, h4⟩ := ih h1 (fun x hx => hops x (by simp [hx]))
+    obtain ⟨h1, h2⟩ := sim_step Hc Hm D h op hops.1
+    obtain ⟨h3, h4⟩ := ih h1 hops.2
     simp only [runTS, specRun]
     exact ⟨h3, by rw [h2, h4]⟩
 
